@@ -38,6 +38,17 @@ def avg_call(c, out, seed, **kw):
 def selection(c, rng, mode, kind):
     over_time = mode in ("avg1", "avg2")
     n = c.nt if over_time else c.nx
+    if kind == "keep-perm":
+        # a selection on the dimension that is NOT averaged, listed in arbitrary (unsorted) order: every output keeps that dimension
+        # in the listed order, element j belonging to the j-th listed location / time
+        nk = c.nx if over_time else c.nt
+        if nk < 3:
+            return {}, list(range(n)), "none"
+        for _ in range(20):
+            idx = rng.sample(range(nk), rng.randint(2, min(nk, 6)))
+            if idx != sorted(idx):
+                break
+        return ({"ci_avg_x_isel": idx} if over_time else {"ci_avg_time_isel": idx}), idx, "keep-perm"
     if kind == "none" or n < 3:
         return {}, list(range(n)), "none"
     i0 = rng.randint(0, n - 2)
@@ -113,9 +124,13 @@ def run_one(ctx, c, out, mode, kind, ci, size=60):
         if "_avg" in str(name) and not str(name).endswith("_set") and "mc" in av[name].dims:
             ctx.fail(f"{name} (returned although only {mode} was requested) is indexed by the Monte Carlo sample dimension: {av[name].dims}", desc)
     # values
+    keep = kind == "keep-perm"
     for lab in labels:
         T = out[lab].values
-        Tsel = T[:, idx] if over_time else T[idx, :]
+        if keep:
+            Tsel = T[idx, :] if over_time else T[:, idx]
+        else:
+            Tsel = T[:, idx] if over_time else T[idx, :]
         axis = 1 if over_time else 0
         if mode in ("avg1", "avgx1"):
             got = np.asarray(av[f"{lab}_{mode}"].values)
@@ -132,7 +147,10 @@ def run_one(ctx, c, out, mode, kind, ci, size=60):
                              f"(max deviation {np.nanmax(np.abs(got - want)):.3g} K)", desc)
             else:
                 gap = np.abs(out["tmpf"].values - out["tmpb"].values)
-                gsel = (gap[:, idx] if over_time else gap[idx, :]).max(axis=axis)
+                if keep:
+                    gsel = (gap[idx, :] if over_time else gap[:, idx]).max(axis=axis)
+                else:
+                    gsel = (gap[:, idx] if over_time else gap[idx, :]).max(axis=axis)
                 if np.any(np.abs(got - want) > 0.25 * gsel + 1e-9):
                     ctx.fail(f"tmpw_{mode} deviates from the mean of the calibrated tmpw by more than a quarter of |tmpf-tmpb|", desc)
         else:
@@ -212,7 +230,7 @@ def run(ctx):
         if isinstance(out, tuple):
             continue
         for mode in MODES:
-            for kind in ("sel", "isel", "isel-gap", "isel-spell", "none"):
+            for kind in ("sel", "isel", "isel-gap", "isel-spell", "keep-perm", "none"):
                 for ci in (True, False):
                     run_one(ctx, c, out, mode, kind, ci)
             sel_isel_pair(ctx, c, out, mode)
